@@ -242,6 +242,41 @@ reg(Spec("C06", "c06_slicing.cpp", needs=("shim", "optable"),
          assumptions=["a self-branch is never the last instruction of an active block repeat nor the target of rep (excluded by the property)",
                       "Reset() between the three runs relies on C17 (Reset equals a fresh machine)"]))
 
+reg(Spec("C18", "c18_safety.cpp", needs=("shim", "optable"),
+         cases={"quick": 3000, "thorough": 150000},
+         fuzz={"define": "-DC18_LIBFUZZER", "runs": {"quick": 15000, "thorough": 4000000}, "workers": {"quick": 8, "thorough": 16}, "max_len": 1024},
+         technique="property-based testing (rapidcheck structured op sequences) + coverage-guided fuzzing (libFuzzer, ASan/UBSan) with the same oracle",
+         rule="rapidcheck-generated sequences (<=40 ops) on one real Teakra facade built with ASan + UBSan + libstdc++ assertions "
+              "(stack-use-after-return detection on): MMIOWrite / MMIORead of any offset (biased to the bound registers) with any "
+              "16-bit value, DataWrite/DataRead with and without bypass, ProgramWrite, whole-register-state pokes within hardware "
+              "widths (any pc incl. 0x3FFF8..0x3FFFF, 0xFFFC.., any 4-bit program page), Run(1..256), in-contract host calls "
+              "(mailbox, semaphore, AHBM accessors with arbitrary 32-bit addresses, A32 accessors), programs of 1..12 words "
+              "stratified over the decode table written at the current pc, DMA starts with arbitrary channel select, 32-bit "
+              "addresses, sizes, steps, spaces and AHBM bindings. Oracle: access observer (every SharedMemory access < 0x40000 "
+              "words), outcome in {return, UnimplementedException, deliberate ASSERT}, no sanitizer report (worker death = "
+              "violation with the saved case). Non-trivial = the sequence ran instructions or reached a peripheral and was not "
+              "abandoned for its access budget (2^14 accesses); distinct by hash of the op list.",
+         assumptions=["in-contract host calls only: channel / AHBM index < 3, program address < 0x40000, callbacks installed",
+                      "MSan is not usable in this image; uninitialised reads are attacked by C17's heap-fill differential instead",
+                      "instance reuse across cases relies on Reset (C17); every sanitizer death is re-confirmed from the saved case in a fresh process"]))
+
+reg(Spec("C19", "c19_threads.cpp", variant="tsan", needs=("optable", "lib"), workers=8,
+         cases={"quick": 25, "thorough": 1500},
+         technique="property-based testing (rapidcheck-generated schedules) executed on two real threads under ThreadSanitizer",
+         rule="rapidcheck-generated schedules: 200-400 host operations (SendData with per-channel sequence numbers, RecvData, ready / "
+              "empty polls, PeekRecvData, Set/Clear/Mask/GetSemaphore), each followed by a generated pause (none, yield, spin "
+              "2..2000), DSP Run() slice sizes from {1,2,3,7,16,64,200,1000}, re-entrant host callbacks (RecvData / GetSemaphore / "
+              "SendData from inside a handler); the DSP thread runs an echo program whose APBP handler reads all CMDi, replies, "
+              "echoes the semaphore, rewrites the interrupt-disable register and acknowledges. Oracle: ThreadSanitizer report "
+              "(exit code 66) = violation; per reading thread the values read are sent values in non-decreasing order; after "
+              "the join a fixed single-threaded drain (64 x Run(256)) must leave the last value of each channel on both sides "
+              "and >= 1 handler entry. Non-trivial = both threads observed each other's progress >= 3 times and >= 1 send; "
+              "distinct by hash of the schedule.",
+         assumptions=["the OS scheduler is not owned: interleaving coverage is statistical (pauses and slice sizes perturb it); the race "
+                      "clause does not share this weakness because ThreadSanitizer is happens-before based",
+                      "'eventually' is replaced by a bounded drain; a watchdog expiry would be reported as inconclusive, not as a violation",
+                      "logic failures that do not reproduce three times from the saved schedule are reported as notes, not violations"]))
+
 # Properties not (yet) claimed. Kept current by hand; every id in properties.jsonl is either in SPECS or here.
 _PENDING = "check not built yet in this round; planned with property-based testing per DESIGN.md"
 NOT_APPLICABLE = [{"property_id": "C%02d" % i, "reason": _PENDING} for i in range(1, 21) if "C%02d" % i not in SPECS]
